@@ -70,6 +70,11 @@ package router
 //@   modifies nothing
 //@   ensures result0 == (network == 1) && isnil(result1)
 
+// the request's user is one of the listed users, in whatever order they were configured
+//@ func (SourceUserCriterion).Meet
+//@   modifies nothing
+//@   ensures result0 == (exists i int :: 0 <= i && i < len(c) && c[i] == requestInfo.Username) && isnil(result1)
+
 //@ func (SourcePortCriterion).Meet
 //@   modifies nothing
 //@   ensures result0 == (uint16(c) == requestInfo.SourceAddrPort.Port()) && isnil(result1)
@@ -133,8 +138,15 @@ package router
 // and the inversion flag of the configuration field they come from.
 // ---------------------------------------------------------------------------
 
+// the same slice (not merely equal contents)
+//@ pure sameDS(a domainset.DomainSet, b domainset.DomainSet) bool = samearray(a, b) && sliceoff(a) == sliceoff(b) && len(a) == len(b)
+
 //@ func (*RouteConfig).Route
 //@   requires !isnil(rc)
+//@   loop 5 invariant forall j int :: 0 <= j && j <= rangeindex ==> sameDS(domainSets[defaultDomainSetCount + j], domainSetMap[rc.ToDomainSets[j]])
+//@   loop 5 invariant defaultDomainSetCount == 1 ==> sameDS(domainSets[0], pre(domainSets[0]))
+//@   loop 5 invariant defaultDomainSetCount == 0 || defaultDomainSetCount == 1
+//@   callsite AddCriterion: dyntype(arg1, DestDomainCriterion) ==> (forall j int :: 0 <= j && j < len(rc.ToDomainSets) ==> sameDS(domainSets[defaultDomainSetCount + j], domainSetMap[rc.ToDomainSets[j]]))
 //@   callsite AddCriterion: ifaceptr(arg1) == ptrint(addr(sourcePortSetCriterion)) ==> dyntype(arg1, *SourcePortSetCriterion) && arg2 == rc.InvertFromPorts
 //@   callsite AddCriterion: ifaceptr(arg1) == ptrint(addr(destPortSetCriterion)) ==> dyntype(arg1, *DestPortSetCriterion) && arg2 == rc.InvertToPorts
 
